@@ -92,6 +92,71 @@ def lemma_Lrest(spec, LT, xs, tag):
     return {"name": f"lemma.L-rest{tag} (empty layer => the remainder is unchanged)", "status": st, "parts": [p for r in rs for p in r["parts"]], "seconds": sum(r["seconds"] for r in rs)}
 
 
+_ANE: dict = {}
+
+
+def _all_non_empty(spec, LT, xs, tag):
+    """AllNonEmpty(cs, n): the greedy layers 0..n-1 of cs are all non-empty (a defined predicate, shared by L-stop and L-least)"""
+    from pyvc import iterm as IT
+
+    if tag not in _ANE:
+        _ANE[tag], _w = IT.defpred_all(f"AllNonEmpty{tag}", [s_.sort() for s_ in xs] + [LT.sort, L.Int], lambda x: x[-1], lambda x, j: LT.len(spec.FT(*x[:-2], spec.GR(*x[:-1], j), LT.len(spec.GR(*x[:-1], j)))) > 0, lambda x, j: spec.GR(*x[:-1], j))
+    return _ANE[tag]
+
+
+def lemma_Lleast(spec, LT, xs, tag):
+    """L-least (the least-number principle for "the greedy layer is empty"): the axioms def.stop.1 / def.stop.2 that
+    postulate `stop(cs)` -- an index >= 0 whose layer is empty while all earlier layers are non-empty -- are satisfiable
+    for every cs: the recursively defined index
+        LE(cs, 0) = 0,   LE(cs, n+1) = LE(cs, n) if LE(cs, n) < n, else n if layer n is empty, else n+1
+    evaluated at n = |cs| + 1 has both properties.  By induction on n:  (A) 0 <= LE(n) <= n,  (B) LE(n) < n => layer
+    LE(n) is empty,  (C) all layers below LE(n) are non-empty;  with L-stop (not all of the layers 0..|cs| are non-empty)
+    LE(|cs|+1) < |cs|+1, hence (B) applies."""
+    EX = [f"def.stop{tag}.1", f"def.stop{tag}.2"]
+    cs = z3.Const("cs_ll", LT.sort)
+    n, k = z3.Ints("n_ll k_ll")
+    ANE = _all_non_empty(spec, LT, xs, tag)
+    GR = lambda c, j: spec.GR(*xs, c, j)
+    GLlen = lambda c, j: LT.len(spec.FT(*xs, GR(c, j), LT.len(GR(c, j))))
+    LE = L.prefix_fun(
+        f"LeastEmpty{tag}",
+        [x.sort() for x in xs] + [LT.sort],
+        L.Int,
+        lambda *a: z3.IntVal(0),
+        lambda *a: z3.If(a[-1] < a[-2], a[-1], z3.If(LT.len(spec.FT(*a[:-3], spec.GR(*a[:-2], a[-2]), LT.len(spec.GR(*a[:-2], a[-2])))) == 0, a[-2], a[-2] + 1)),
+    )
+    le = lambda m: LE(*xs, cs, m)
+    ane = lambda m: ANE(*xs, cs, m)
+    A = lambda m: z3.And(0 <= le(m), le(m) <= m)
+    B = lambda m: z3.Implies(le(m) < m, GLlen(cs, le(m)) == 0)
+    C = lambda m: ane(le(m))
+    claim = lambda m: z3.And(A(m), B(m), C(m))
+    r1 = _prove(
+        f"L-least{tag}.induction",
+        [
+            ("base n=0", [n == 0], claim(n), []),
+            ("step", [n >= 0, claim(n)], claim(n + 1), [GR(cs, n), le(n + 1)]),
+        ],
+        exclude=EX,
+    )
+    top = LT.len(cs) + 1
+    st = le(top)
+    r2 = _prove(
+        f"L-least{tag}.stop",
+        [
+            ("def.stop.1 holds of LE(|cs|+1)", [claim(top), z3.Not(ane(top))], z3.And(st >= 0, GLlen(cs, st) == 0), []),
+            ("def.stop.2 holds of LE(|cs|+1)", [claim(top), 0 <= k, k < st], GLlen(cs, k) > 0, [GR(cs, k)]),
+        ],
+        exclude=EX,
+    )
+    # sanity: without L-stop's conclusion the first part must NOT be provable
+    r3 = _prove(f"L-least{tag}.sanity", [("not provable without L-stop", [claim(top)], GLlen(cs, st) == 0, [])], exclude=EX)
+    sane = r3["status"] != "proved"
+    rs = (r1, r2)
+    stt = "proved" if all(r["status"] == "proved" for r in rs) and sane else ("failed" if any(r["status"] == "failed" for r in rs) or not sane else "undecided")
+    return {"name": f"lemma.L-least{tag} (a first empty greedy layer exists: def.stop is satisfiable)", "status": stt, "parts": [p for r in rs for p in r["parts"]] + [{"part": "sanity: needs L-stop", "status": "ok" if sane else "VACUOUS"}], "seconds": sum(r["seconds"] for r in (r1, r2, r3))}
+
+
 def lemma_Lstop(spec, LT, xs, tag):
     """L-stop (existence part): some greedy layer with index <= |cs| is empty.
       (S1) len FT(R,n) + len FN(R,n) = n                      (induction on n)
@@ -112,7 +177,7 @@ def lemma_Lstop(spec, LT, xs, tag):
     r1 = _prove(f"L-stop{tag}.S1", [("base n=0", [n == 0], S1(R, n), []), ("step", [n >= 0, S1(R, n)], S1(R, n + 1), [FT(R, n + 1), FN(R, n + 1)])], exclude=EX)
     GR = lambda j: spec.GR(*xs, cs, j)
     GLlen = lambda j: LT.len(FT(GR(j), LT.len(GR(j))))
-    ANE, _w = IT.defpred_all(f"AllNonEmpty{tag}", [s_.sort() for s_ in xs] + [LT.sort, L.Int], lambda x: x[-1], lambda x, j: LT.len(spec.FT(*x[:-2], spec.GR(*x[:-1], j), LT.len(spec.GR(*x[:-1], j)))) > 0, lambda x, j: spec.GR(*x[:-1], j))
+    ANE = _all_non_empty(spec, LT, xs, tag)
     ane = lambda m: ANE(*xs, cs, m)
     S2 = lambda m: z3.Implies(z3.And(0 <= m, ane(m)), LT.len(GR(m)) <= LT.len(cs) - m)
     inst = S1(GR(k), LT.len(GR(k)))  # (S1) at R := GR(cs,k), n := its length
@@ -791,6 +856,8 @@ LEMMAS = {
     "lenGLs": lambda: lemma_lenGLs(PS, LCnd, LLCnd, (), ""),
     "L-stop": lambda: lemma_Lstop(PS, LCnd, (), ""),
     "L-stopk": lambda: lemma_Lstop(PSK, LInt, (z3.Const("val_ls", z3.ArraySort(L.Int, L.Cnd)),), "k"),
+    "L-least": lambda: lemma_Lleast(PS, LCnd, (), ""),
+    "L-leastk": lambda: lemma_Lleast(PSK, LInt, (z3.Const("val_ll", z3.ArraySort(L.Int, L.Cnd)),), "k"),
     "L-rest": lambda: lemma_Lrest(PS, LCnd, (), ""),
     "L-restk": lambda: lemma_Lrest(PSK, LInt, (z3.Const("val_lr", z3.ArraySort(L.Int, L.Cnd)),), "k"),
     "lenGLsk": lambda: lemma_lenGLs(PSK, LInt, LLInt, (z3.Const("val_l", z3.ArraySort(L.Int, L.Cnd)),), "k"),
